@@ -252,16 +252,32 @@ def fwdEntry (s : St) (e : BitVec 16 × BitVec 16) : St :=
     | none => let r := createStream s e.1 true; (r.1, r.2.isSome)
   if r.2 then { r.1 with streams := setQ r.1.streams e.1 (fun q => q.forwardTSNForOrdered e.2) } else r.1
 
+/-- Go (since the fix of D23): the loop at the head of `handleForwardTSN` / `handleIForwardTSN`
+`for _, forwarded := range streams { if _, ok := a.streams[id]; !ok && a.createStream(id, true) == nil { return nil } }`:
+every stream the chunk names must exist or be creatable BEFORE anything is taken; when the accept backlog is
+full the whole chunk is dropped (`false`), the streams created before the failing one stay. -/
+def ensureStreams : St → List (BitVec 16) → St × Bool
+  | s, [] => (s, true)
+  | s, id :: ids =>
+    match getS s.streams id with
+    | some _ => ensureStreams s ids
+    | none =>
+      let r := createStream s id true
+      if r.2.isSome then ensureStreams r.1 ids else (r.1, false)
+
 /-- Go: `handleForwardTSN` -/
 def handleFwd (s : St) (newCum : TSN) (entries : List (BitVec 16 × BitVec 16)) : St :=
   if s.il then abortPV s
   else if !s.useFwd then { s with control := s.control ++ [.error] }
   else if fwd_stale (chunkTSN_newCumulativeTSN := newCum) (a_peerLastTSN := s.pq.cum) then staleFwd s
   else
-    let s := { s with pq := RecvQ.advance s.pq newCum }
-    let s := entries.foldl fwdEntry s
-    let s := { s with streams := s.streams.map fun x => { x with q := x.q.forwardTSNForUnordered newCum } }
-    ackStep s false
+    let e := ensureStreams s (entries.map (·.1))
+    if !e.2 then e.1
+    else
+      let s := { e.1 with pq := RecvQ.advance e.1.pq newCum }
+      let s := entries.foldl fwdEntry s
+      let s := { s with streams := s.streams.map fun x => { x with q := x.q.forwardTSNForUnordered newCum } }
+      ackStep s false
 
 def ifwdEntry (s : St) (e : BitVec 16 × Bool × BitVec 32) : St :=
   let r := match getS s.streams e.1 with
@@ -277,9 +293,12 @@ def handleIFwd (s : St) (newCum : TSN) (entries : List (BitVec 16 × Bool × Bit
   if !s.useIFwd then abortPV s
   else if ifwd_stale (chunkTSN_newCumulativeTSN := newCum) (a_peerLastTSN := s.pq.cum) then staleFwd s
   else
-    let s := { s with pq := RecvQ.advance s.pq newCum }
-    let s := entries.foldl ifwdEntry s
-    ackStep s false
+    let e := ensureStreams s (entries.map (·.1))
+    if !e.2 then e.1
+    else
+      let s := { e.1 with pq := RecvQ.advance e.1.pq newCum }
+      let s := entries.foldl ifwdEntry s
+      ackStep s false
 
 /-! ### packets -/
 
